@@ -531,25 +531,30 @@ impl PrefixCodeGroup {
     ) -> Result<T, Error>
     where
         usize: AsPrimitive<T::Symbol>,
-        T::Symbol: Copy + Ord + 'static,
+        T::Symbol: Copy + Ord + Into<u16> + 'static,
     {
         let simple_code_length_code = reader.read_bit()?;
         let tree = if simple_code_length_code {
             let has_second_symbol = reader.read_bit()?;
 
             let is_first_symbol_8bits = reader.read_bit()?;
-            let first_symbol = if is_first_symbol_8bits {
+            let first_symbol: T::Symbol = if is_first_symbol_8bits {
                 reader.read(8)?
             } else {
                 Numeric::from_u8(reader.read_bit()? as u8)
             };
-            let symbols = if has_second_symbol {
-                let second_symbol = reader.read(8)?;
-                vec![(first_symbol, vec![0]), (second_symbol, vec![1])]
-            } else {
-                vec![(first_symbol, vec![])]
-            };
-            CanonicalHuffmanTree::from_symbols(symbols)?
+            let second_symbol = if has_second_symbol { Some(reader.read(8)?) } else { None };
+
+            // As in the specification, a simple code assigns code length 1 to each symbol it names: naming the same
+            // symbol twice yields a single-symbol code, and a symbol outside of the alphabet is not part of the code.
+            let max_symbol_count = T::alphabet_size(color_cache.len());
+            let mut code_lengths: Vec<(T::Symbol, u8)> = Vec::with_capacity(2);
+            for symbol in [Some(first_symbol), second_symbol].into_iter().flatten() {
+                if Into::<u16>::into(symbol) < max_symbol_count && !code_lengths.contains(&(symbol, 1)) {
+                    code_lengths.push((symbol, 1));
+                }
+            }
+            CanonicalHuffmanTree::new(&mut code_lengths)?
         } else {
             let code_length_code = CodeLengthPrefixCode::read(reader)?;
 
